@@ -1,0 +1,25 @@
+//go:build verif
+
+package operator
+
+import (
+	"reduction.dev/reduction/dkv/kv"
+	"reduction.dev/reduction/partitioning"
+	"reduction.dev/reduction/proto"
+)
+
+// VerifNeighbor describes one neighbouring operator for VerifNewOperatorPartition.
+type VerifNeighbor struct {
+	KeyGroupRange partitioning.KeyGroupRange
+	Operator      proto.Operator
+}
+
+// VerifNewOperatorPartition builds the operator's real kv.DataOwnership over scripted neighbours
+// (verification harness /verif, property C09). Compiled only with -tags verif.
+func VerifNewOperatorPartition(r partitioning.KeyGroupRange, neighbors []VerifNeighbor) kv.DataOwnership {
+	ns := make([]neighborPartition, len(neighbors))
+	for i, n := range neighbors {
+		ns[i] = neighborPartition{keyGroupRange: n.KeyGroupRange, operator: n.Operator}
+	}
+	return newOperatorPartition(r, ns)
+}
